@@ -4,8 +4,8 @@ CONSTANTS
   Kinds = {"lt", "rest"}
   Users = {"alice", "tenant:alice", ""}
   Durs <- MCDurs
-  Ticks = {1}
+  Ticks = {3, 10}
   Muts <- MCMuts
-  MaxNow = 5
+  MaxNow = 50
 ACTION_CONSTRAINT EmitEdge
 CHECK_DEADLOCK FALSE
